@@ -1152,6 +1152,19 @@ func Now() time.Time {
 	return t.In(time.Local)
 }
 
+// AdvanceClock moves the simulated wall clock (a clock-jump fault between two calls).
+func AdvanceClock(d time.Duration) {
+	clockMu.Lock()
+	if clockSet {
+		clockNow = clockNow.Add(d)
+	}
+	clockMu.Unlock()
+	if active && cur != nil {
+		faultsF["clock_jump"]++
+		logEv('K', uint64(cur.id), uint64(d/time.Second), 0)
+	}
+}
+
 // PeekClock returns the value the next Now() will return, without advancing.
 func PeekClock() (time.Time, bool) {
 	clockMu.Lock()
